@@ -180,7 +180,7 @@ Proof.
         destruct (N.compare p r) eqn:Ecmp.
         -- apply N.compare_eq_iff in Ecmp. contradiction.
         -- (* p < r: p becomes the kept production *)
-           apply N.compare_lt_iff in Ecmp.
+           assert (Hlt : (p < r)%N) by (apply N.compare_lt_iff; exact Ecmp). clear Ecmp. rename Hlt into Ecmp.
            constructor; cbn [t_cells t_rr t_sr t_sa t_fin t_gotos set_cells set_rr set_sa set_fin set_sr set_gotos].
            ++ intros b. unfold cell_of, upd. rewrite Haccs, Hreds. destruct (N.eqb_spec b a) as [E|E].
               ** subst b. rewrite Eacc. rewrite N.eqb_refl. rewrite min_list_snoc, Emin. cbn [minstep].
@@ -195,7 +195,7 @@ Proof.
                  --- exact (rr_inv_mono evs (p, a) rr Hrrinv x Hx).
                  --- subst x. unfold rr_st, rr_x, rr_y, rr_tok. simpl. rewrite Hreds, N.eqb_refl.
                      repeat split; [exact Ecmp | | ]; apply in_or_app; [right; left; reflexivity | left; exact Hr].
-              ** intros b. rewrite rr_of_tok_snoc, map_app. unfold rr_tok at 2. simpl fst.
+              ** intros b. rewrite rr_of_tok_snoc, map_app. change (rr_tok (a, p, r, s)) with a.
                  rewrite Hreds. destruct Hrrinv as [_ Hperm]. specialize (Hperm b).
                  destruct (N.eqb_spec a b) as [E|E].
                  --- subst b. simpl map. unfold rr_y at 2. simpl.
@@ -212,7 +212,7 @@ Proof.
            ++ intros b. rewrite map_app, !in_app_iff. simpl. rewrite (Hsa b). tauto.
            ++ rewrite Haccs. exact Hfinv.
         -- (* p > r: r stays *)
-           apply N.compare_gt_iff in Ecmp.
+           assert (Hgt : (r < p)%N) by (apply N.compare_gt_iff; exact Ecmp). clear Ecmp. rename Hgt into Ecmp.
            constructor; cbn [t_cells t_rr t_sr t_sa t_fin t_gotos set_cells set_rr set_sa set_fin set_sr set_gotos].
            ++ intros b. unfold cell_of. rewrite Haccs, Hreds. destruct (N.eqb_spec a b) as [E|E].
               ** subst b. rewrite Eacc. rewrite min_list_snoc, Emin. cbn [minstep].
@@ -226,7 +226,7 @@ Proof.
                  --- exact (rr_inv_mono evs (p, a) rr Hrrinv x Hx).
                  --- subst x. unfold rr_st, rr_x, rr_y, rr_tok. simpl. rewrite Hreds, N.eqb_refl.
                      repeat split; [exact Ecmp | | ]; apply in_or_app; [left; exact Hr | right; left; reflexivity].
-              ** intros b. rewrite rr_of_tok_snoc, map_app. unfold rr_tok at 2. simpl fst.
+              ** intros b. rewrite rr_of_tok_snoc, map_app. change (rr_tok (a, r, p, s)) with a.
                  rewrite Hreds. destruct Hrrinv as [_ Hperm]. specialize (Hperm b).
                  destruct (N.eqb_spec a b) as [E|E].
                  --- subst b. simpl map. unfold rr_y at 2. simpl.
@@ -249,7 +249,7 @@ Proof.
         destruct Hfin as [Hfin|Hfin].
         2:{ exfalso. specialize (Hfin (start_prod g, eof g)). rewrite Ee in Hfin.
             assert (true = false) by (apply Hfin; apply in_or_app; right; left; reflexivity). discriminate. }
-        subst fin0.
+        rewrite Hfin.
         assert (Hreds : forall b, ev_reds (evs ++ [(start_prod g, eof g)]) b = ev_reds evs b).
         { intros b. rewrite ev_reds_snoc. simpl snd. rewrite Ee. rewrite andb_false_r. apply app_nil_r. }
         constructor; cbn [t_cells t_rr t_sr t_sa t_fin t_gotos set_cells set_rr set_sa set_fin set_sr set_gotos].
